@@ -4,4 +4,8 @@ C(cat, tps) == [on |-> FALSE, q |-> 1, cat |-> cat, topics |-> tps]
 MCConsCfgs == { <<C("n", {}), C("x", {})>>, <<C("n", {1}), C("n", {})>>, <<C("n", {}), C("d", {})>> }
 MCConsCfgsQuick == { <<C("n", {}), C("x", {})>>, <<C("n", {}), C("n", {})>> }
 MCConsCfgsAll == [Consumers -> [on : {FALSE}, q : {1}, cat : Cats, topics : SUBSET Topics]]
+\* two queues, flush / delete explored on both
+CQ(q, cat) == [on |-> FALSE, q |-> q, cat |-> cat, topics |-> {}]
+MCTwoQueues == {1, 2}
+MCConsCfgsFlush == { <<CQ(1, "n"), CQ(2, "n")>>, <<CQ(1, "n"), CQ(1, "x")>>, <<CQ(1, "d"), CQ(2, "n")>> }
 ====
